@@ -161,8 +161,8 @@ var afterSteps = map[string]func(rec *chain.Recorder) string{
 }
 
 const (
-	feeCase11  = "fee params: seller fee 1.1 (FeeParams.Validate is never reached by ValidateGenesis)"
-	feeCaseBad = "fee params: unparsable buyer fee (never validated)"
+	feeCase11  = "fee params: seller fee 1.1 (rejected since the F13 fix: FeeParams.Validate runs at genesis)"
+	feeCaseBad = "fee params: unparsable buyer fee (rejected since the F13 fix)"
 )
 
 // buyAfter starts a block and lets user 3 buy one credit of sell order 1 (ask 2000000uatom per credit).
@@ -262,6 +262,22 @@ func patchCases() []pcase {
 			r := e.first(pBase + "BatchBalance")
 			r["retired_amount"] = fmt.Sprint(r["retired_amount"]) + "e0"
 		}},
+		{"balance: every row of batch 2 zero and its supply zero (a fully cancelled batch)", true, func(e eco) {
+			for _, r := range e.rows(pBase + "BatchBalance") {
+				if fmt.Sprint(r["batch_key"]) == "2" {
+					r["tradable_amount"], r["retired_amount"], r["escrowed_amount"] = "0", "0", "0"
+				}
+			}
+			sp := e.find(pBase+"BatchSupply", "batch_key", "2")
+			sp["cancelled_amount"], sp["tradable_amount"], sp["retired_amount"] = "77.7", "0", "0"
+		}},
+		{"balance: every row of batch 2 zero but its supply unchanged", false, func(e eco) {
+			for _, r := range e.rows(pBase + "BatchBalance") {
+				if fmt.Sprint(r["batch_key"]) == "2" {
+					r["tradable_amount"], r["retired_amount"], r["escrowed_amount"] = "0", "0", "0"
+				}
+			}
+		}},
 		{"balance: row of an unknown batch", false, func(e eco) {
 			r := copyRow(e.first(pBase + "BatchBalance"))
 			r["batch_key"] = "77"
@@ -315,11 +331,11 @@ func patchCases() []pcase {
 			f := e.singleton(pMarket + "FeeParams")
 			f["buyer_percentage_fee"], f["seller_percentage_fee"] = "0", "1"
 		}},
-		{feeCase11, true, func(e eco) {
+		{feeCase11, false, func(e eco) {
 			f := e.singleton(pMarket + "FeeParams")
 			f["buyer_percentage_fee"], f["seller_percentage_fee"] = "0", "1.1"
 		}},
-		{feeCaseBad, true, func(e eco) { e.singleton(pMarket + "FeeParams")["buyer_percentage_fee"] = "a lot" }},
+		{feeCaseBad, false, func(e eco) { e.singleton(pMarket + "FeeParams")["buyer_percentage_fee"] = "a lot" }},
 
 		// ---- baskets
 		{"basket: name of 2 characters", false, func(e eco) { e.first(pBasket + "Basket")["name"] = "ab" }},
@@ -483,6 +499,9 @@ func liveCases() []live {
 		}},
 		{"basket drained completely", true, func(a *chain.App) sdk.Msg {
 			return a.MsgBasketTake(0, "eco.uC.NCT", "101750000", false, "", "")
+		}},
+		{"the sole holder of the bridged batch puts all of it into the basket (all balance rows of the batch are zero)", true, func(a *chain.App) sdk.Msg {
+			return a.MsgBasketPut(4, "eco.uC.NCT", chain.BasketCredit("C01-002-20200101-20210101-001", "77.7"))
 		}},
 		{"gov: date criteria with a one-day window", true, func(a *chain.App) sdk.Msg {
 			return a.MsgBasketUpdateDateCriteria("eco.uC.NCT", &basket.DateCriteria{StartDateWindow: durationPB(86400)})
